@@ -696,8 +696,7 @@ class NUMERIC(FieldType):
     def unprepare_number(self, x):
         dc = self.decimal_places
         if dc:
-            s = str(x)
-            x = Decimal(s[:-dc] + "." + s[-dc:])
+            x = Decimal(x).scaleb(-dc)
         return x
 
     def to_column_value(self, x):
